@@ -24,6 +24,12 @@ pub(crate) fn is_not_found_error_kind(error: &std::io::Error) -> bool {
 /// It will delete directories even if their permissions would normally prevent deletion as
 /// long as the current user is the owner of them (or root).
 pub(crate) fn remove_dir_recursively(dir: &Path) -> std::io::Result<()> {
+    // A symlink must not be followed: like `rm -rf`, only the link itself is removed. Otherwise
+    // the permission change and the deletion below would be applied to the link's target.
+    if dir.symlink_metadata()?.file_type().is_symlink() {
+        return fs::remove_file(dir);
+    }
+
     // To delete a directory, the current user must have the permission to write and list the
     // directory (to empty it before deleting). To reduce the possibility of permission errors,
     // we try to set the correct permissions before attempting to delete the directory and the
